@@ -256,3 +256,67 @@ def drive(I, fut, max_polls=64, between=None):
         if between is not None:
             between(I, n)
     raise InternalError('future still pending after %d polls' % max_polls)
+
+
+# ---------------------------------------------------------------------------- further write entry points
+class WriteBufFut(PyFuture):
+    """AsyncWriteExt::write_buf (one poll_write, the buffer is advanced by what was accepted) / write_all_buf (until empty)"""
+    def __init__(self, t, buf, all_): self.t = t; self.buf = buf; self.all = all_; self.total = 0
+    def poll(self, I):
+        t = self.t
+        b = self.buf
+        while True:
+            data = explode(I, list(b.b))
+            if not data:
+                return ok(self.total)
+            k = len(data)
+            if t.max_write is not None:
+                k = min(k, t.max_write)
+            if t.write_budget is not None:
+                if t.write_budget == 0:
+                    return PENDING
+                k = min(k, t.write_budget)
+                t.write_budget -= k
+            r = do_write(I, t, data[:k])
+            if r.variant == 'Err':
+                return r
+            del b.b[:k]
+            self.total += k
+            if not self.all:
+                return ok(k)
+
+@model('AsyncWriteExt::write_buf')
+def m_awrite_buf(I, c, args, fr):
+    return WriteBufFut(transport(args[0]), deref(args[1]), False)
+
+@model('AsyncWriteExt::write_all_buf')
+def m_awrite_all_buf(I, c, args, fr):
+    return WriteBufFut(transport(args[0]), deref(args[1]), True)
+
+@model('AsyncWriteExt::write_u8')
+def m_awrite_u8(I, c, args, fr):
+    return WriteAllFut(transport(args[0]), [args[1]])
+
+@model('IoSlice::new')
+def m_ioslice_new(I, c, args, fr):
+    return Adt('IoSlice', None, 0, [as_slice(args[0])])
+
+@model('IoSlice::len')
+def m_ioslice_len(I, c, args, fr):
+    return len(as_slice(deref(args[0]).fields[0]))
+
+@model('Write::write_vectored')
+def m_write_vectored(I, c, args, fr):
+    """std's default implementation (what a writer that only implements write/flush gets): the first non-empty buffer goes to
+    `write`; the harness transport is such a writer"""
+    t = transport(args[0])
+    bufs = as_slice(args[1]).items()
+    for b in bufs:
+        sl = as_slice(deref(b).fields[0])
+        if len(sl):
+            return m_write(I, c, [args[0], sl], fr)
+    return m_write(I, c, [args[0], SliceRef([], 0, 0, 'slice')], fr)
+
+@model('Write::is_write_vectored')
+def m_is_write_vectored(I, c, args, fr):
+    return False
